@@ -202,7 +202,7 @@ def main():
 
     n_san = int(nruns * san_share)
     n_plain = nruns - n_san
-    cmd = "logdrv" if prop in LOGDRV else "run"
+    cmd = "run"
     lines, crashes = [], []
     san_lines = []
     if n_plain:
